@@ -63,7 +63,10 @@ PortCases == {[parser |-> "port_parse", word |-> w, pw |-> "na", codes |-> Flat(
 OpenAlphabet(p) ==
     CASE p = "atto_from_str" -> {"0", "1", "9", "dot", "us", "plus", "x", "sp", "e", "minus", "u8", "max", "frac18", "frac19"}
       [] p = "craft_multiaddr" -> {"ip4", "ip6", "dns", "udp", "tcp", "tcpbig", "quic", "ws", "p2p", "p2pbad", "circuit", "slash", "junk", "u8"}
-      [] p = "cache_load" -> {"FULL", "CUTA", "CUTB", "lb", "rb", "lq", "null", "ff", "huge", "wrongtype", "wsp", "bom"}
+      \* tmax / tnear / tday / tu64: every last-seen time of the file at the edge of the representable time range
+      \* (i64::MAX seconds, one less, less than a day less, u64::MAX)
+      [] p = "cache_load" -> {"FULL", "CUTA", "CUTB", "lb", "rb", "lq", "null", "ff", "huge", "wrongtype", "wsp", "bom",
+                              "tmax", "tnear", "tday", "tu64"}
       [] p = "registry_load" -> {"FULL", "CUTA", "CUTB", "lb", "rb", "lq", "null", "ff", "num", "wrongtype", "wsp", "bom"}
       [] p = "registry_from_json" -> {"FULL", "CUTA", "CUTB", "lb", "rb", "lq", "null", "u8", "num", "wrongtype", "wsp", "bom"}
 OpenCases == UNION {{[parser |-> p, word |-> w, pw |-> "na", codes |-> <<>>, exp |-> IF w = <<"FULL">> THEN "accept" ELSE "either"] :
